@@ -17,7 +17,7 @@ import (
 )
 
 type desc struct {
-	Op   string  `json:"op"` // datefast | dateround | ipv4 | ipv4round | ipv6
+	Op   string  `json:"op"` // datefast | dateround | ipv4 | ipv4round | ipv6 | ipv6uri
 	S    hlib.B  `json:"s,omitempty"`
 	Secs int64   `json:"secs,omitempty"`
 	IP   []int64 `json:"ip,omitempty"`
@@ -74,6 +74,12 @@ func corpus() []desc {
 	}
 	for _, h := range v6corpus {
 		c = append(c, desc{Op: "ipv6", S: []byte(h)})
+	}
+	for _, h := range v6corpus {
+		c = append(c, desc{Op: "ipv6uri", S: []byte(h)})
+	}
+	for _, h := range []string{"[fe80::1%25en0]", "[fe80::1%25]", "[fe80::1%25%25]", "[FE80::A%25En0]:80", "[::1%25a%2fb]", "[::1]]:80", "[::1]:80", "[::FFFF:1.2.3.4]", "[::1]/x", "[::1]?x", "[::1]#x", "u@[::1]", "[::1]@[::2]"} {
+		c = append(c, desc{Op: "ipv6uri", S: []byte(h)})
 	}
 	for _, ip := range [][]int64{{0, 0, 0, 0}, {255, 255, 255, 255}, {1, 22, 0, 255}, {10, 100, 9, 99}, {127, 0, 0, 1}} {
 		c = append(c, desc{Op: "ipv4round", IP: ip})
@@ -234,8 +240,14 @@ func genV6(r *rand.Rand) []byte {
 
 func gen(r *rand.Rand, i int) desc {
 	switch r.Intn(12) {
-	case 8, 9, 10, 11:
+	case 8, 9, 10:
 		return desc{Op: "ipv6", S: genV6(r)}
+	case 11: // through URI.Parse; half of the time with the zone introducer written as %25
+		h := genV6(r)
+		if r.Intn(2) == 0 {
+			h = []byte(strings.Replace(string(h), "%", "%25", 1))
+		}
+		return desc{Op: "ipv6uri", S: h}
 	case 0, 1, 2:
 		return desc{Op: "datefast", S: mkdate(r)}
 	case 3: // a valid date with one byte mutated
@@ -332,6 +344,26 @@ func run(d desc) hlib.Case {
 		}
 		c.Coq = hlib.App("CIPv6", hlib.Hex(d.S), hlib.Bool(impl), hlib.Bool(nip))
 		c.Sig = fmt.Sprintf("ipv6-%v-%v-%s", impl, nip, shape)
+	case "ipv6uri":
+		var u fasthttp.URI
+		err := u.Parse(nil, []byte("http://"+string(d.S)+"/"))
+		addrOK := func(h []byte) bool {
+			if len(h) == 0 || h[0] != '[' {
+				return false
+			}
+			j := strings.LastIndexByte(string(h), ']')
+			if j < 1 {
+				return false
+			}
+			ad, e := netip.ParseAddr(string(h[1:j]))
+			return e == nil && ad.Is6()
+		}
+		out := []byte(nil)
+		if err == nil {
+			out = append(out, u.Host()...)
+		}
+		c.Coq = hlib.App("CIPv6URI", hlib.Hex(d.S), hlib.Bool(err == nil), hlib.Hex(out), hlib.Bool(addrOK(d.S)), hlib.Bool(addrOK(out)))
+		c.Sig = fmt.Sprintf("ipv6uri-%v-%v-%v-z%v-c%d", err == nil, addrOK(d.S), addrOK(out), strings.Contains(string(d.S), "%"), min(strings.Count(string(d.S), ":"), 8))
 	case "ipv4round":
 		ip := net.IPv4(byte(d.IP[0]), byte(d.IP[1]), byte(d.IP[2]), byte(d.IP[3]))
 		app := fasthttp.AppendIPv4(nil, ip)
@@ -356,7 +388,7 @@ func main() {
 		PropOK:   "prop_ok",
 		Rule: "structured enumeration of RFC 1123 dates (weekday tokens in several cases incl. invalid, day 00-39, month tokens, boundary years 0000-9999, h/m/s incl. 24/60/61, malformed digits), " +
 			"valid dates with 1-2 mutated bytes, random instants in years 0000-9999 formatted and parsed back, IPv4 strings from a field grammar with boundary values 250-261, leading zeros, mutations and junk; " +
-			"bracketed IPv6 hosts from the RFC 4291 grammar (7/8/9 groups, '::' at every position, 1-5 digit groups in both cases, dotted-quad tails with leading zeros/256/3 or 5 parts, zones incl. empty and %25, ports and garbage after the bracket, second '::', ':::', leading/trailing ':') plus byte mutations, each with the real netip.ParseAddr verdict; " +
+			"bracketed IPv6 hosts from the RFC 4291 grammar (7/8/9 groups, '::' at every position, 1-5 digit groups in both cases, dotted-quad tails with leading zeros/256/3 or 5 parts, zones incl. empty and %25, ports and garbage after the bracket, second '::', ':::', leading/trailing ':') plus byte mutations, each with the real netip.ParseAddr verdict, both handed to validateIPv6Literal directly and as the host of \"http://<host>/\" through URI.Parse (zones also as %25); " +
 			"real time.Parse / net / netip results are recorded in each case; non-trivial = distinct (operation, accepted?, stdlib accepted?, length/month/weekday) class",
 		Corpus: corpus,
 		Gen:    gen,
